@@ -217,7 +217,7 @@ def dump_tree_cases(logp, comp, prefix, path, per_episode=4000, extra=None, firs
 
 
 # ---------------------------------------------------------------- executor
-def run_exec(exe, cases, trace, env=None, timeout=3000, wrapper=''):
+def run_exec(exe, cases, trace, env=None, timeout=3000, wrapper='', pre=''):
     e = dict(os.environ)
     e.setdefault('ASAN_OPTIONS', 'abort_on_error=1:detect_leaks=0:allocator_may_return_null=1')
     e.setdefault('UBSAN_OPTIONS', 'halt_on_error=1:abort_on_error=1:print_stacktrace=1')
@@ -225,7 +225,7 @@ def run_exec(exe, cases, trace, env=None, timeout=3000, wrapper=''):
     if env:
         e.update(env)
     errp = trace + '.stderr'
-    r = subprocess.run('timeout %d %s %s %s %s 2> %s' % (timeout, wrapper, exe, cases, trace, errp), shell=True, env=e)
+    r = subprocess.run('timeout %d %s %s %s %s %s 2> %s' % (timeout, wrapper, exe, pre, cases, trace, errp), shell=True, env=e)
     if r.returncode != 0:
         raise MachineryError('executor failed rc=%d: %s' % (r.returncode, open(errp).read()[-2000:]))
     return trace
@@ -284,9 +284,11 @@ FAIL_RE = re.compile(r'^<<"FAIL", (\d+), "([^"]*)", \{(.*)\}>>')
 NOTE_RE = re.compile(r'^<<"(COUNT|NOTE)", (.*)>>')
 
 
-def judge(module, trace, tag, nchunks=None, cfg='Trace.cfg', env=None):
+def judge(module, trace, tag, nchunks=None, cfg='Trace.cfg', env=None, second=None):
     """TLC judges a recorded trace.  Returns dict: events, fails = [(episode, line, set(monitors))], counts."""
     good, bad = clean_trace(trace)
+    if second:
+        clean_trace(second)
     if good == 0:
         raise MachineryError('empty trace %s' % trace)
     if nchunks is None:
